@@ -92,6 +92,37 @@ MethodReachable(shape, recv) == IF recv = "pointer" /\ shape \in {"namedint", "n
 \* a pointer-receiver method called through a pointer acts on the pointed-to value; through a plain value it may act on a copy (not asserted)
 MutationVisible(shape, recv) == IF recv = "pointer" /\ shape \in {"ptrstruct", "ptrnamedint", "ptrnamedmap", "ptrnamedslice"} THEN "yes" ELSE "open"
 
+\* ---- callbacks: a script function handed to a Go parameter of a func type is invoked with the arguments Go passes, and its
+\* result is converted to the declared return types.
+\* Go's side:  gfix fixed int64 parameters (Go passes 11, 12, ...), optionally a variadic ...int64 to which Go passes gextra
+\*             values (21, 22, ...); gres declared int64 results.
+\* Script's side: sfix named parameters, optionally one variadic parameter after them; the body returns sret values (101, 102, ...).
+\* What the script function sees, parameter by parameter: [k |-> "val", vs |-> <<v>>] a plain value, [k |-> "list", vs |-> ...] the
+\* values collected by its own variadic parameter, [k |-> "slice", vs |-> ...] Go's variadic parameter arriving as Go itself sees it
+\* (one slice value).  o = "call" | "error" | "open".
+FixedVals(n) == [i \in 1..n |-> 10 + i]
+ExtraVals(n) == [i \in 1..n |-> 20 + i]
+Sub(sq, a, b) == [i \in 1..(b - a + 1) |-> sq[a + i - 1]]
+CallbackSees(gfix, gvar, gextra, sfix, svar) ==
+  LET fv == FixedVals(gfix)  ev == ExtraVals(gextra)  all == fv \o ev IN
+  IF ~gvar THEN
+     IF ~svar THEN (IF sfix = gfix THEN [o |-> "call", ps |-> [i \in 1..sfix |-> [k |-> "val", vs |-> <<fv[i]>>]]]
+                    ELSE [o |-> "error", ps |-> <<>>])                                    \* the arguments Go passes cannot be bound
+     ELSE (IF sfix <= gfix THEN [o |-> "call", ps |-> [i \in 1..sfix |-> [k |-> "val", vs |-> <<fv[i]>>]] \o <<[k |-> "list", vs |-> Sub(fv, sfix + 1, gfix)]>>]
+           ELSE [o |-> "error", ps |-> <<>>])
+  ELSE
+     IF ~svar THEN (IF sfix = gfix + 1 THEN [o |-> "call", ps |-> [i \in 1..gfix |-> [k |-> "val", vs |-> <<fv[i]>>]] \o <<[k |-> "slice", vs |-> ev]>>]
+                    ELSE [o |-> "open", ps |-> <<>>])
+     ELSE (IF sfix <= gfix + gextra
+           THEN [o |-> "call", ps |-> [i \in 1..sfix |-> [k |-> "val", vs |-> <<all[i]>>]] \o <<[k |-> "list", vs |-> Sub(all, sfix + 1, gfix + gextra)]>>]
+           ELSE [o |-> "error", ps |-> <<>>])
+\* what Go gets back: "call" with the converted values, "error" (surfacing as an error of the enclosing call), or "open"
+CallbackReturns(gres, sret) ==
+  IF gres = 0 THEN [o |-> "call", rs |-> <<>>]                                            \* nothing is wanted: whatever the body returns is dropped
+  ELSE IF gres = 1 THEN (IF sret = 1 THEN [o |-> "call", rs |-> <<101>>] ELSE IF sret = 0 THEN [o |-> "open", rs |-> <<>>] ELSE [o |-> "error", rs |-> <<>>])
+  ELSE IF sret = gres THEN [o |-> "call", rs |-> [i \in 1..gres |-> 100 + i]]
+  ELSE [o |-> "error", rs |-> <<>>]
+
 \* the tables are total and an error never coexists with a delivered call
 TableSane(fixed, vtype, args, spread) == LET o == Outcome(fixed, vtype, args, spread) IN o.o \in {"call", "callslice", "arity", "error", "open"}
 =============================================================================
